@@ -1,4 +1,5 @@
 #!/bin/sh
+# usage: verify_seeded.sh [glob]   e.g. verify_seeded.sh 'C*-m3'
 # Confirm each seeded change in a scratch worktree: applies, builds, suite passes with it,
 # demonstration fails with it and passes without it.  Writes seeded/<id>/meta.json.
 export GOFLAGS=-mod=mod GOPROXY=off GOSUMDB=off GOTOOLCHAIN=local
@@ -7,6 +8,7 @@ git -C /repo worktree remove --force $WT 2>/dev/null
 git -C /repo worktree add -q --detach $WT HEAD || exit 2
 for d in /verif/seeded/*/; do
   id=$(basename $d); prop=${id%%-*}
+  if [ -n "$1" ]; then case "$id" in $1) ;; *) continue;; esac; fi
   [ -f $d/patch.diff ] || continue
   cd $WT && git checkout -q -- . && git clean -fdq
   demo=$(ls $d/*_test.go 2>/dev/null | head -1)
